@@ -2,3 +2,6 @@ from .registry import CONTRACTS, LEMMAS, SPECFUNS, BOUNDED
 from .schema import SCHEMA
 from . import music          # C20, C14.b, C19 (cof)
 from . import util, relative
+from . import lemmas
+from . import message
+from . import absolute
